@@ -74,3 +74,14 @@ package fasthttp
 //@   nooverflow
 //@   loop 2:
 //@     invariant[retired-leave-ready] m + len(deref(scratch)) == n && m <= i
+
+// Stop (C13): a pool that was running ends up marked stopped with an empty ready stack, whether or not any worker was
+// idle at that moment -- busy workers learn from mustStop (in release) that they must exit instead of parking.
+//@ func workerPool.Stop
+//@   property C13
+//@   mode skeleton
+//@   nooverflow
+//@   ensures[marked-stopped] old(wp.stopCh) != nil ==> wp.mustStop
+//@   ensures[no-idle-worker-remains] old(wp.stopCh) != nil ==> len(wp.ready) == 0
+//@   loop 1:
+//@     invariant[lock-held] held(wp.lock)
